@@ -148,3 +148,23 @@ Proof.
   - destruct (gen_between_loop1_spec a b true l false []) as [st' H]. rewrite H. reflexivity.
   - destruct (gen_between_loop2_spec a b false l false []) as [st' H]. rewrite H. reflexivity.
 Qed.
+
+(* ---- count on an UNCACHED rule: the only state is `_len`.  Every call that runs the generator to exhaustion
+   (list, count with _len None, a failed `in`, before, between past the end, ...) executes the generator's
+   final `self._len = total` (RGenBase.published: total = number of items yielded -- the assumption on the
+   generator, rrule.py `_iter` of rrule and of rruleset; the cached path proves it from the `lenp` field of the
+   transition system, RCacheThm.count_returns_length); every other call leaves `_len` alone.  So after ANY
+   history `_len` is None or |L|, gen_count's hypothesis holds, and count() returns |L| whatever ran before. *)
+Definition ulen_after (l : list Z) (h : list bool) : option Z :=
+  fold_left (fun len (exhausted : bool) => if exhausted then published l else len) h None.
+
+Theorem gen_count_after_any_history : forall l h, gen_count (ulen_after l h) l = QVal (zlen l).
+Proof.
+  intros l h. apply (gen_count_eq (ulen_after l h) l). unfold ulen_after.
+  assert (G : forall h s0, (s0 = None \/ s0 = Some (zlen l)) ->
+            fold_left (fun len (exhausted : bool) => if exhausted then published l else len) h s0 = None \/
+            fold_left (fun len (exhausted : bool) => if exhausted then published l else len) h s0 = Some (zlen l)).
+  { induction h0 as [|b r IH]; intros s0 H0; [exact H0|]. cbn [fold_left]. apply IH.
+    destruct b; [right; reflexivity | exact H0]. }
+  apply G. left. reflexivity.
+Qed.
